@@ -249,6 +249,22 @@ class Run(RunBase):
     def fail(self, oracle, detail):
         raise Violation(self.prop, oracle, detail)
 
+    def caller_array(self, a, kind):
+        """The caller's occupation vector in one of the forms a numpy user would hand over: its own int64/int32/
+        int8 array, or a strided view into a larger array it owns (every other element)."""
+        if kind == "int32":
+            arr = np.array(a, dtype=np.int32)
+        elif kind == "int8":
+            arr = np.array(a, dtype=np.int8)
+        elif kind == "strided":
+            big = np.full(2 * len(a), 7, dtype=int)
+            big[::2] = a
+            arr = big[::2]
+        else:
+            return np.array(a, dtype=int)
+        self.probes["occupation-array-" + kind] += 1
+        return arr
+
     # ------------------------------------------------------------------ helpers
     def make_occ(self, spec):
         if spec == "zeros":
@@ -417,7 +433,12 @@ class Run(RunBase):
             spec = "".join("1" if rng.random() < p else "0" for _ in range(self.n))
         else:
             spec = rng.choice(["zeros", "ones", "current", "current"])
-        return {"op": "start", "occ": spec, "alias": rng.random() < 0.5}
+        op = {"op": "start", "occ": spec, "alias": rng.random() < 0.5}
+        if rng.random() < 0.3:
+            # C35 stays with int64 arrays, the compiled sampler's declared type (MonteCarloSampler_param copies the
+            # reference sampler's array as it is, so an int8/int32 occupation cannot be compiled: DESIGN 6, O3)
+            op["arr"] = rng.choice(("int32", "int8", "strided") if self.prop != "C35" else ("strided", "strided"))
+        return op
 
     def propose_c35(self, rng, occd, unoc):
         if self.jit is None:
@@ -472,7 +493,7 @@ class Run(RunBase):
             arr = self.occ                      # restart on the very array the sampler already aliases
             self.faults["restart-on-aliased-array"] += 1
         else:
-            arr = np.array(a, dtype=int)
+            arr = self.caller_array(a, op.get("arr"))
         if self.started:
             self.faults["restart"] += 1
         self.mc.start(arr)
